@@ -17,10 +17,15 @@
                                     if truthy, else the end of the layout); row_iter = records of the RECFM
                                     reader, Row per record, then used(location.end)
    src/stingray/implementations.py
-     XLS/XLSX/ODS unpackers         sheet_iter = the library's sheet names; instance_iter(name) = the rows of
-                                    the sheet with that name
-     NumbersUnpacker                sheet_iter = sheet::table for every table of every sheet;
-                                    instance_iter(name): name.partition(::), sheets[sheet].tables[table]
+     XLS/XLSX/ODS/Numbers unpackers sheet_iter and instance_iter are NOT written here: how each class turns the parsed
+                                    document into sheet names and rows (which names, in which order, the Numbers
+                                    composite and its separator, how a sheet is found by name, which rows, which
+                                    attribute of a cell, any conversion) is the record glue_XLS / glue_XLSX / glue_ODS /
+                                    glue_NUMBERS of Gen/ImplParams.v, read from the source on every run by
+                                    harness/t1_impl.py.  [names_with] / [instances_book] / [instances_numbers] below
+                                    INTERPRET those records; Proofs/WorkbookP.v re-derives the closed forms
+                                    (rule_names_book, rule_instances_book, rule_names_numbers, rule_instances_numbers,
+                                    name_sep_eq, partition_sep_unf) from the current values.
    src/stingray/schema_instance.py
      WBNav.name / value             Model/HeaderRow.v [nav_name]
      DNav.name / value              schema.properties[name] (KeyError), instance[name] (KeyError); the value itself
@@ -40,6 +45,7 @@
 From Coq Require Import ZArith NArith List Bool Arith.
 Import ListNotations.
 Require Import SR.Base.Res SR.Model.HeaderRow SR.Gen.RecfmParams.
+Require Export SR.Gen.ImplParams.
 Require SR.Model.Registry SR.Model.Recfm SR.Model.Estruct.
 Require Import SR.Spec.Transparency.
 Open Scope nat_scope.
@@ -88,21 +94,66 @@ Definition reader_for (f : fmt) : res fmt :=
 (* ------------------------------------------------------------------ what a parser delivers *)
 Definition doc := list (key * cell).                      (* a JSON object, keys distinct *)
 
+(* the three libraries whose document is a book of named sheets; numbers_parser's document has sheets of tables *)
+Inductive book := B_XLS | B_XLSX | B_ODS.
+Inductive office := O_book (b : book) | O_NUMBERS.
+
 Inductive content :=
 | C_single (rows : sheet)                                 (* csv.reader over the file *)
-| C_multi (sheets : list (key * sheet))                   (* xlrd / openpyxl / pyexcel: named sheets *)
+| C_multi (lib : book) (sheets : list (key * sheet))      (* the Book of xlrd / Workbook of openpyxl / Book of pyexcel: named sheets *)
 | C_numbers (sheets : list (key * list (key * sheet)))    (* numbers_parser: sheets of named tables *)
 | C_json (docs : list doc).                               (* json.loads of every line *)
 
-Definition name_sep : key := [58; 58]%N.
+(* ---- the glue of src/stingray/implementations.py: an interpreter of Gen/ImplParams.v ----
+   Facts about the third-party libraries (fixed here, not read from the source; tied by the correspondence run):
+   the spellings the translator accepts for NA_names give the stored sheet names in stored order; a lookup by name of a
+   sheet that is not there raises KeyError; get_rows() / iter_rows() / rows / iteration give every stored row in stored
+   order; the items of a row are cell objects whose attribute value is the stored value - except pyexcel, whose rows are
+   lists of the values themselves, and iter_rows(values_only=True); iter_rows counts rows from 1 in openpyxl and from 0
+   in numbers_parser, both bounds included. *)
+Definition glue_of (o : office) : glue :=
+  match o with
+  | O_book B_XLS => glue_XLS
+  | O_book B_XLSX => glue_XLSX
+  | O_book B_ODS => glue_ODS
+  | O_NUMBERS => glue_NUMBERS
+  end.
 
-(* unpacker.sheet_iter() *)
-Definition sheet_names (c : content) : list key :=
-  match c with
-  | C_single _ => [[]]
-  | C_json _ => [[]]
-  | C_multi ss => map fst ss
-  | C_numbers ss => flat_map (fun s => map (fun t => fst s ++ name_sep ++ fst t) (snd s)) ss
+Definition items_are_objects (o : office) (g : glue) : bool :=
+  match o with O_book B_ODS => false | _ => negb (g_values_only g) end.
+
+Definition first_row_number (o : office) : Z := match o with O_book B_XLSX => 1%Z | _ => 0%Z end.
+
+(* Python's reading of a slice bound for a sequence of n items: omitted = default, negative = from the end, clipped *)
+Definition py_bound (n default : nat) (i : option Z) : nat :=
+  match i with
+  | None => default
+  | Some z => if (z <? 0)%Z then Z.to_nat (Z.max 0 (Z.of_nat n + z)) else Nat.min n (Z.to_nat z)
+  end.
+
+(* x[::step]: the items at 0, step, 2 step, ... ([k] = how many items to pass over before the next one taken) *)
+Fixpoint every_aux {A} (step k : nat) (l : list A) : list A :=
+  match l with
+  | [] => []
+  | x :: t => match k with O => x :: every_aux step (pred step) t | S k' => every_aux step k' t end
+  end.
+
+Definition apply_op {A} (op : seq_op) (l : list A) : list A :=
+  match op with
+  | SO_reversed => rev l
+  | SO_slice a b c =>
+      let n := length l in
+      let i := py_bound n 0 a in
+      let j := py_bound n n b in
+      every_aux c 0 (firstn (j - i) (skipn i l))
+  end.
+
+Definition apply_ops {A} (ops : list seq_op) (l : list A) : list A := fold_left (fun x op => apply_op op x) ops l.
+
+Fixpoint map_res {A B} (f : A -> res B) (l : list A) : res (list B) :=
+  match l with
+  | [] => Ok []
+  | x :: t => bind (f x) (fun y => bind (map_res f t) (fun ys => Ok (y :: ys)))
   end.
 
 (* d[k] on a dict keyed by strings; None = KeyError *)
@@ -112,29 +163,120 @@ Fixpoint lookup {V} (d : list (key * V)) (k : key) : option V :=
   | (k', v) :: t => if key_eqb k' k then Some v else lookup t k
   end.
 
-(* name.partition(::) : text before the first separator, text after it; no separator: (name, empty) *)
-Fixpoint partition_sep (name : key) : key * key :=
-  match name with
-  | [] => ([], [])
-  | c :: t =>
-      match t with
-      | d :: t' => if (c =? 58)%N && (d =? 58)%N then ([], t')
-                   else let (a, b) := partition_sep t in (c :: a, b)
-      | [] => ([c], [])
+(* name.partition(sep) for a non-empty sep: text before the first separator, text after it; no separator: (name, empty) *)
+Fixpoint strip_prefix (p s : key) : option key :=
+  match p, s with
+  | [], _ => Some s
+  | a :: p', b :: s' => if (b =? a)%N then strip_prefix p' s' else None
+  | _ :: _, [] => None
+  end.
+
+Fixpoint partition_by (sep name : key) : key * key :=
+  match strip_prefix sep name with
+  | Some rest => ([], rest)
+  | None => match name with
+            | [] => ([], [])
+            | c :: t => let (a, b) := partition_by sep t in (c :: a, b)
+            end
+  end.
+
+(* ---- one cell: the expression g_cell over the item of the row ---- *)
+Inductive pyval := PV_object (c : cell) | PV_value (c : cell).    (* a cell object holding c; the value c itself *)
+Definition k_value : key := [118; 97; 108; 117; 101]%N.          (* the attribute name value *)
+Definition k_cell_repr : key := [60; 67; 101; 108; 108; 62]%N.   (* str() of a cell object: not modelled further *)
+
+Fixpoint eval_cell (e : cell_expr) (item : pyval) : res pyval :=
+  match e with
+  | CE_item => Ok item
+  | CE_attr a e' =>
+      bind (eval_cell e' item) (fun v =>
+        match v with
+        | PV_object c => if key_eqb a k_value then Ok (PV_value c) else Err AttributeError
+        | PV_value _ => Err AttributeError                 (* a str, a number, None have no such attribute *)
+        end)
+  | CE_str e' =>
+      bind (eval_cell e' item) (fun v =>
+        match v with
+        | PV_value c => Ok (PV_value (Txt (str_of c)))
+        | PV_object _ => Ok (PV_value (Txt k_cell_repr))
+        end)
+  end.
+
+Definition deliver_cell (o : office) (g : glue) (c : cell) : res cell :=
+  bind (eval_cell (g_cell g) (if items_are_objects o g then PV_object c else PV_value c)) (fun v =>
+    match v with
+    | PV_value c' => Ok c'
+    | PV_object _ => Ok (Obj 9 k_cell_repr)                (* the cell object itself is delivered *)
+    end).
+
+Definition deliver_row (o : office) (g : glue) (r : row) : res row :=
+  map_res (deliver_cell o g) (apply_ops (g_cells_ops g) r).
+
+(* the rows iterated: iter_rows(min_row, max_row), then the sequence steps; nothing when the guard finds the sheet falsy
+   (a sheet without rows) *)
+Definition pick_rows (o : office) (g : glue) (rows : sheet) : sheet :=
+  let base := first_row_number o in
+  let lo := match g_min_row g with None => 0 | Some z => Z.to_nat (z - base) end in
+  let hi := match g_max_row g with None => length rows | Some z => Z.to_nat (z - base + 1) end in
+  let picked := apply_ops (g_rows_ops g) (firstn (hi - lo) (skipn lo rows)) in
+  if g_rows_guard g then match rows with [] => [] | _ => picked end else picked.
+
+(* list(instance_iter(name)) once the sheet is found (an exception while a row is built: the whole read fails) *)
+Definition deliver (o : office) (g : glue) (rows : sheet) : res sheet :=
+  map_res (deliver_row o g) (pick_rows o g rows).
+
+(* the separator of the Numbers composite name, and the one instance_iter partitions at *)
+Definition name_sep : key := match g_names glue_NUMBERS with NA_composite sep => sep | NA_names => [] end.
+Definition part_sep : key := match g_lookup glue_NUMBERS with LK_partition sep => sep | LK_name => [] end.
+Definition partition_sep (name : key) : key * key := partition_by part_sep name.
+
+(* list(unpacker.sheet_iter()) *)
+Definition names_book (g : glue) (ss : list (key * sheet)) : list key :=
+  match g_names g with
+  | NA_names => apply_ops (g_names_ops g) (map fst ss)
+  | NA_composite _ => []                                   (* a book has no tables *)
+  end.
+
+Definition names_numbers (g : glue) (ss : list (key * list (key * sheet))) : list key :=
+  match g_names g with
+  | NA_composite sep =>
+      flat_map (fun s => map (fun t => fst s ++ sep ++ fst t) (apply_ops (g_tables_ops g) (snd s)))
+               (apply_ops (g_names_ops g) ss)
+  | NA_names => apply_ops (g_names_ops g) (map fst ss)
+  end.
+
+Definition sheet_names (c : content) : list key :=
+  match c with
+  | C_single _ => [[]]
+  | C_json _ => [[]]
+  | C_multi b ss => names_book (glue_of (O_book b)) ss
+  | C_numbers ss => names_numbers glue_NUMBERS ss
+  end.
+
+(* list(unpacker.instance_iter(name)) for the office formats *)
+Definition instances_book (o : office) (g : glue) (ss : list (key * sheet)) (name : key) : res sheet :=
+  match g_lookup g with
+  | LK_name => match lookup ss name with Some rows => deliver o g rows | None => Err KeyError end
+  | LK_partition _ => Err OtherError
+  end.
+
+Definition instances_numbers (g : glue) (ss : list (key * list (key * sheet))) (name : key) : res sheet :=
+  match g_lookup g with
+  | LK_partition sep =>
+      let (s, t) := partition_by sep name in
+      match lookup ss s with
+      | None => Err KeyError
+      | Some tables => match lookup tables t with Some rows => deliver O_NUMBERS g rows | None => Err KeyError end
       end
+  | LK_name => Err OtherError
   end.
 
 (* unpacker.instance_iter(name) for the list-of-cells formats *)
 Definition wb_instances (c : content) (name : key) : res sheet :=
   match c with
   | C_single rows => Ok rows                               (* the name is not used *)
-  | C_multi ss => match lookup ss name with Some rows => Ok rows | None => Err KeyError end
-  | C_numbers ss =>
-      let (s, t) := partition_sep name in
-      match lookup ss s with
-      | None => Err KeyError
-      | Some tables => match lookup tables t with Some rows => Ok rows | None => Err KeyError end
-      end
+  | C_multi b ss => instances_book (O_book b) (glue_of (O_book b)) ss name
+  | C_numbers ss => instances_numbers glue_NUMBERS ss name
   | C_json _ => Err OtherError                             (* not a list-of-cells format *)
   end.
 
@@ -344,11 +486,15 @@ Definition third_party (f : fmt) : bool :=
 Definition storable (f : fmt) (W : workbook) : bool :=
   if single_sheet f then match W with [([], _)] => true | _ => false end else true.
 
+(* the library whose document a file of the format is (formats without a book of sheets: not used) *)
+Definition book_of (f : fmt) : book :=
+  match f with F_XLS => B_XLS | F_ODS => B_ODS | _ => B_XLSX end.
+
 Definition phys (f : fmt) (W : workbook) : content :=
   match f with
   | F_CSV | F_TAB => C_single (match W with [(_, T)] => phys_sheet T | _ => [] end)
   | F_NDJSON => C_json (match W with [(_, T)] => map (phys_doc T) (t_rows T) | _ => [] end)
-  | _ => C_multi (map (fun s => (fst s, phys_sheet (snd s))) W)
+  | _ => C_multi (book_of f) (map (fun s => (fst s, phys_sheet (snd s))) W)
   end.
 
 Definition phys_numbers (d : numbers_doc) : content :=
